@@ -57,6 +57,8 @@ class Part:
             self.violations.append({"key": key, "msg": msg, "case": case})
         if key not in KNOWN_KEYS:
             self.unlisted_count += 1
+            if key.startswith("loop"):          # a case that ran into the watchdog costs seconds
+                self.unlisted_count += FAIL_FAST_AFTER // 2
         if self.unlisted_count >= FAIL_FAST_AFTER:
             # the verdict is settled; do not keep exploring a tree that is broken (a defect can
             # also make every further case slower, e.g. state that grows across calls)
